@@ -373,7 +373,7 @@ class Sym:
         return {'vertices': vs, 'branches': br, 'stores': [ev(c) for c in s.ctr], 'next_v': ev(s.pos)}
 
 
-def inv(w, st, full_members=False):
+def inv(w, st, full_members=False, counters='eq'):
     """Inv over the state `st` (variables in a pre-state, terms in a post-state), as a list of
     (name, formula).  Only the first min(cap,16) members of a slot can be in use when members are
     distinct ids below cap; `cnt <= min(cap,16)` is implied by I2 and stated as a lemma."""
@@ -401,7 +401,10 @@ def inv(w, st, full_members=False):
         unread = U(0)
         for k in range(K):
             unread = unread + z3.If(z3.And(z3.UGT(cnt, k), w.sel(pers, items[k], 8) == STORED), U(1), U(0))
-        cs.append(('I4.counter%d' % b, to_bv(w.ctr(st, b), 64) == unread))
+        if counters == 'eq':
+            cs.append(('I4.counter%d' % b, to_bv(w.ctr(st, b), 64) == unread))
+        else:
+            cs.append(('I4ge.counter%d' % b, z3.UGE(to_bv(w.ctr(st, b), 64), unread)))
     for b in (0, 1):
         cs.append(('I5.sentinel%d' % b, z3.And(to_bv(w.cnt(st, b), 64) == 1, to_bv(w.item(st, b, 0), 64) == 0)))
     cs.append(('I7.pos', z3.ULE(to_bv(w.pos(st), 64), cap)))
